@@ -457,6 +457,9 @@ class C2Profile(ConfigBlock):
 
         for setting, value in config.settings_by_index.items():
             logger.debug(f"{setting} -> {value}")
+            if isinstance(value, str):
+                # hand text settings over as bytes, so that backslashes and quotes are escaped in the profile
+                value = value.encode("latin-1")
             if setting == BeaconSetting.SETTING_SLEEPTIME:
                 profile.set_option("sleeptime", value)
             elif setting == BeaconSetting.SETTING_MAXGET:
@@ -465,7 +468,7 @@ class C2Profile(ConfigBlock):
             elif setting == BeaconSetting.SETTING_JITTER:
                 profile.set_option("jitter", value)
             elif setting == BeaconSetting.SETTING_DOMAINS:
-                uris = ", ".join(config.uris)
+                uris = ", ".join(config.uris).encode("latin-1")
                 http_get.set_option("uri", uris)
             elif setting == BeaconSetting.SETTING_SPAWNTO:
                 # profile.set_option("spawnto", value)
@@ -508,19 +511,17 @@ class C2Profile(ConfigBlock):
                 block_steps = collections.defaultdict(list)
                 for k, v in value:
                     if k in ("_HEADER", "_HOSTHEADER"):
-                        v = v.decode("latin-1")
-                        header, _, header_val = v.partition(": ")
+                        header, _, header_val = v.partition(b": ")
                         headers.append((header, header_val))
                     elif k == "_PARAMETER":
-                        v = v.decode("latin-1")
-                        param, _, param_val = v.partition("=")
+                        param, _, param_val = v.partition(b"=")
                         params.append((param, param_val))
                     elif k == "BUILD":
                         _build = v
                     elif v is True:
                         block_steps[_build].append(k.lower())
                     else:
-                        block_steps[_build].append((k.lower(), v.decode("latin-1")))
+                        block_steps[_build].append((k.lower(), v))
                 logger.debug(f"block_steps: {block_steps}")
                 if headers:
                     http_get_client._pair("header", headers)
@@ -537,12 +538,10 @@ class C2Profile(ConfigBlock):
                 block_steps = collections.defaultdict(list)
                 for k, v in value:
                     if k in ("_HEADER", "_HOSTHEADER"):
-                        v = v.decode("latin-1")
-                        header, _, header_val = v.partition(": ")
+                        header, _, header_val = v.partition(b": ")
                         headers.append((header, header_val))
                     elif k == "_PARAMETER":
-                        v = v.decode("latin-1")
-                        param, _, param_val = v.partition("=")
+                        param, _, param_val = v.partition(b"=")
                         params.append((param, param_val))
                     elif k == "BUILD":
                         _build = v
